@@ -27,6 +27,11 @@ mut("c10_class_level_threshold_cache", "C10", "a solve in pruned mode followed b
       "        for state_idx in states_reaching_final:\n                if state_idx in Solver._known_dead:\n                    continue\n                state = self.state_list[state_idx]\n"),
      ("tad.py", "            state.expected_reach_min_rewards = state.reach_probability\n",
       "            state.expected_reach_min_rewards = state.reach_probability\n            if state.reach_probability == 0 and prune_states:\n                Solver._known_dead.add(state.idx)\n")])
+mut("c10_solve_result_memoised_on_object", "C10", "second solve() through the same object after the caller edited the lists the first one returned",
+    [("tad.py", "        logging.info(\"Initializing stochastic game ...\")\n        self.check_game()\n",
+      "        if getattr(self, '_solved', None) is not None and self._solved[0] == self.prune_states:\n            return self._solved[1]\n        logging.info(\"Initializing stochastic game ...\")\n        self.check_game()\n"),
+     ("tad.py", "        logging.info(\"Done!\")\n        return final_strategies, reachability_strategies, rewards, probabilities, n_iterations_reach, n_iterations_rew, expected_reach_min_rewards, expected_rewards_min_reach\n",
+      "        logging.info(\"Done!\")\n        self._solved = (self.prune_states, (final_strategies, reachability_strategies, rewards, probabilities, n_iterations_reach, n_iterations_rew, expected_reach_min_rewards, expected_rewards_min_reach))\n        return self._solved[1]\n")])
 # ---- C12 -------------------------------------------------------------------
 mut("c12_flag_reset_hoisted", "C12", "a failing game followed by a solvable one in the same batch",
     [("conditionalrewards.py", "    game_results = {}\n    for name, game in games_dict.items():\n        prev_game_had_solution = True\n",
